@@ -65,7 +65,7 @@ def encodeSeqHeader (isMesh : Bool) : Bytes :=
 
 /-- one corner around a vertex, in `SwingRight` order starting at `LeftMostCorner(v)` -/
 structure FanCorner where
-  /-- `mesh()->CornerToPointId(corner)` -/
+  /-- `mesh()->CornerToPointId(corner)` (only the pre-fix encoder formula looks at it) -/
   pid : Nat
   /-- encoder: `attribute_corner_tables[i]->Vertex(corner)` for every attribute corner table in
       use; decoder: `attribute_data_[i].connectivity_data.Vertex(corner)` -/
@@ -91,14 +91,12 @@ def avDiff : List Nat → List Nat → Bool
 
 /-- body of the `while (corner_index != kInvalidCornerIndex)` loop of
     `MeshEdgebreakerEncoder::ComputeNumberOfEncodedPoints` over the corners still to visit;
-    state: `last_point_index`, `last_corner_index`; result: `num_attribute_seams`.
-    Note the else-branch: attribute corner tables are only consulted when the point id did not
-    change. -/
-def encWalk (lastPid : Nat) (last : FanCorner) : List FanCorner → Nat
+    state: `last_corner_index`; result: `num_attribute_seams`. A seam is counted iff some used
+    attribute corner table has `Vertex(corner_index) != Vertex(last_corner_index)`; point ids are
+    not consulted. -/
+def encWalk (last : FanCorner) : List FanCorner → Nat
   | [] => 0
-  | c :: cs =>
-    if c.pid != lastPid then 1 + encWalk c.pid c cs
-    else (if avDiff c.av last.av then 1 else 0) + encWalk lastPid c cs
+  | c :: cs => (if avDiff c.av last.av then 1 else 0) + encWalk c cs
 
 /-- `num_attribute_seams` of one vertex: the loop starts at `SwingRight(first_corner)` and, for
     an interior vertex, still processes `first_corner` (against c_{k-1}) before the
@@ -106,7 +104,7 @@ def encWalk (lastPid : Nat) (last : FanCorner) : List FanCorner → Nat
 def encSeams (f : Fan) : Nat :=
   match f.corners with
   | [] => 0
-  | c0 :: cs => encWalk c0.pid c0 (if f.closed then cs ++ [c0] else cs)
+  | c0 :: cs => encWalk c0 (if f.closed then cs ++ [c0] else cs)
 
 /-- contribution of one non-isolated vertex to `num_points` in
     `MeshEdgebreakerEncoder::ComputeNumberOfEncodedPoints`: 1 (from `num_vertices() -
@@ -114,6 +112,27 @@ def encSeams (f : Fan) : Nat :=
     `num_attribute_seams` otherwise -/
 def encPoints (f : Fan) : Nat :=
   1 + (if f.closed && decide (encSeams f > 0) then encSeams f - 1 else encSeams f)
+
+/-- formula before fix: commit 49d6567. Loop body of
+    `MeshEdgebreakerEncoder::ComputeNumberOfEncodedPoints` as it was: state `last_point_index`,
+    `last_corner_index`; a seam was counted when `mesh()->CornerToPointId(corner)` changed, and
+    the attribute corner tables were only consulted in the else-branch (point id unchanged). -/
+def encWalkPreFix (lastPid : Nat) (last : FanCorner) : List FanCorner → Nat
+  | [] => 0
+  | c :: cs =>
+    if c.pid != lastPid then 1 + encWalkPreFix c.pid c cs
+    else (if avDiff c.av last.av then 1 else 0) + encWalkPreFix lastPid c cs
+
+/-- formula before fix: commit 49d6567. `num_attribute_seams` of one vertex. -/
+def encSeamsPreFix (f : Fan) : Nat :=
+  match f.corners with
+  | [] => 0
+  | c0 :: cs => encWalkPreFix c0.pid c0 (if f.closed then cs ++ [c0] else cs)
+
+/-- formula before fix: commit 49d6567. Contribution of one non-isolated vertex to
+    `num_encoded_points`. -/
+def encPointsPreFix (f : Fan) : Nat :=
+  1 + (if f.closed && decide (encSeamsPreFix f > 0) then encSeamsPreFix f - 1 else encSeamsPreFix f)
 
 /-- the `while (act_c != c)` loop of `AssignPointsToCorners` for attribute `i` over c₁ …:
     number of corners skipped before the first one whose `Vertex` differs from `vert_id` -/
